@@ -395,8 +395,11 @@ func genCase(t *rapid.T) Case {
 		// character by character; the entries also hold those neighbours
 		str := func() *sg.TypeSpec { return &sg.TypeSpec{Name: "string"} }
 		l := func(n string) *sg.Node { return &sg.Node{Kind: "leaf", Name: n, Type: str()} }
-		gl := &sg.Node{Kind: "list", Name: "gu-list", Key: "k", Uniques: []string{"port10", "addr/v10 addr/v4"},
-			Kids: []*sg.Node{l("k"), l("port2"), l("port9"), l("port10"), l("port100"), {Kind: "container", Name: "addr", Kids: []*sg.Node{l("v4"), l("v6"), l("v10")}}}}
+		// ... and over leaves of 64-bit types, whose values differ in the last digit only, beyond what a float64 tells apart
+		num := func(n, typ string, fd int) *sg.Node { return &sg.Node{Kind: "leaf", Name: n, Type: &sg.TypeSpec{Name: typ, FD: fd}} }
+		gl := &sg.Node{Kind: "list", Name: "gu-list", Key: "k", Uniques: []string{"port10", "addr/v10 addr/v4", "n64", "i64 addr/d64"},
+			Kids: []*sg.Node{l("k"), l("port2"), l("port9"), l("port10"), l("port100"), num("n64", "uint64", 0), num("i64", "int64", 0),
+				{Kind: "container", Name: "addr", Kids: []*sg.Node{l("v4"), l("v6"), l("v10"), num("d64", "decimal64", 2)}}}}
 		top := c.Mods[0].Nodes[0]
 		top.Kids = append([]*sg.Node{gl}, top.Kids...)
 	}
@@ -542,12 +545,34 @@ func genCase(t *rapid.T) Case {
 					e.Kids = append(e.Kids, &D{Name: ln, Vals: []string{[]string{"a", "b", "c"}[g.Pick(3, "uniqval")]}})
 				}
 			}
+			big := g.Chance(1, 2, "uniqbig")
+			if g.Chance(3, 4, "uniqn64") {
+				pool := []string{"9007199254740992", "9007199254740993", "9007199254740994", "18446744073709551615", "18446744073709551614", "7"}
+				if big {
+					pool = pool[:3]
+				}
+				e.Kids = append(e.Kids, &D{Name: "n64", Vals: []string{pool[g.Pick(len(pool), "uniqn64val")]}})
+			}
+			if g.Chance(3, 4, "uniqi64") {
+				pool := []string{"-9007199254740993", "-9007199254740992", "9223372036854775807", "9223372036854775806", "7"}
+				if big {
+					pool = pool[:2]
+				}
+				e.Kids = append(e.Kids, &D{Name: "i64", Vals: []string{pool[g.Pick(len(pool), "uniqi64val")]}})
+			}
 			if g.Chance(3, 4, "uniqaddr") {
 				a := &D{Name: "addr"}
 				for _, ln := range []string{"v4", "v6", "v10"} {
 					if g.Chance(3, 4, "uniqaddrleaf") {
 						a.Kids = append(a.Kids, &D{Name: ln, Vals: []string{[]string{"x", "y"}[g.Pick(2, "uniqaddrval")]}})
 					}
+				}
+				if g.Chance(3, 4, "uniqd64") {
+					pool := []string{"90071992547409.93", "90071992547409.92", "1.50", "1.25"}
+					if big {
+						pool = pool[:2]
+					}
+					a.Kids = append(a.Kids, &D{Name: "d64", Vals: []string{pool[g.Pick(len(pool), "uniqd64val")]}})
 				}
 				e.Kids = append(e.Kids, a)
 			}
@@ -563,7 +588,7 @@ func genCase(t *rapid.T) Case {
 						kept = append(kept, k)
 					}
 				}
-				e.Kids = append(kept, &D{Name: "addr", Kids: []*D{{Name: "v10", Vals: []string{"x"}}, {Name: "v6", Vals: []string{"z"}}}})
+				e.Kids = append(kept, &D{Name: "addr", Kids: []*D{{Name: "v10", Vals: []string{"x"}}, {Name: "v6", Vals: []string{"z"}}, {Name: "d64", Vals: []string{"1.25"}}}})
 			}
 		}
 		top := c.Mods[0].Nodes[0]
@@ -1003,7 +1028,7 @@ func nodes(ds []*D) []datanode.DataNode {
 var structural = fw.Register(&fw.Prop[Case]{
 	ID: "C18", Name: "structural",
 	Rule: "schemas from the module-set generator (mandatory leaves and choices, nested non-presence containers, presence containers, choices within cases, default cases, lists and leaf-lists with min/max, " +
-		"unique sets, leaf and typedef defaults; no must/when/leafref) and data trees drawn over the harness's inlined model (random presence of every node, at most one case per choice, 0-6 list entries, values " +
+		"unique sets (also over uint64, int64 and decimal64 leaves whose values differ in the last digit beyond 2^53), leaf and typedef defaults; no must/when/leafref) and data trees drawn over the harness's inlined model (random presence of every node, at most one case per choice, 0-6 list entries, values " +
 		"from an alphabet with '/', blank, ':' and the middle dot); oracle: reference set of violated RFC 6020 constraints - ValidateSchema must report an error iff it is non-empty - and reference default " +
 		"decoration - the walk of AddDefaults must equal it (children unordered), explicit data unchanged, decorating twice equals once; non-trivial = the tree has data or a violation",
 	Gen: genCase, Check: checkCase,
